@@ -4,7 +4,10 @@
  * (--wrap=socket,connect,getsockopt,setsockopt,poll,recv,send,close) by a scripted server: a byte
  * stream delivered in scripted segments, then EOF or a reset.  The allocator is wrapped
  * (--wrap=malloc,calloc,realloc,free) to count live blocks.  http.c is included as source so that
- * every netbuf_read_wait() it issues can be logged (L2) and used as a cancellation point.
+ * every netbuf_read_wait() it issues can be logged (L2) and used as a cancellation point; netbuf_read.c
+ * and netbuf_write.c are included as source so that the registrations they hold can be read off at every
+ * wait (L2 "res=": live blocks of http.c's own / all live blocks of the library / outstanding connect +
+ * read-wait + write registrations, compared with Model/HttpRes.lean).
  */
 #include <sys/types.h>
 #include <sys/socket.h>
@@ -110,6 +113,10 @@ static int opt_conn = 0;		/* number of addresses which refuse the connection */
 static size_t opt_sndmax = 0;		/* 0 = unlimited */
 static long long opt_sndfail = -1;	/* send fails once this many bytes were accepted */
 static long long opt_cancel = -1;	/* 0: right after http_request; k: after the k-th wait */
+static long long opt_cancel_recv = -1;	/* j: after the event-loop callback which made the j-th recv() */
+static long nrecv;			/* recv() calls in this case */
+static int poll_active;			/* descriptors with a registration in the last poll() */
+static void hh_recv_hook(void);
 static int opt_early = 0;		/* server talks without waiting for the request */
 
 static uint8_t * sent = NULL;
@@ -182,12 +189,15 @@ __wrap_poll(struct pollfd * fds, nfds_t nfds, int timeout)
 	int n = 0;
 
 	(void)timeout;
+	poll_active = 0;
 	if (nfds == 0) {
 		stuck = 1;
 		return (0);
 	}
 	for (i = 0; i < nfds; i++) {
 		fds[i].revents = 0;
+		if (fds[i].events & (POLLIN | POLLOUT))
+			poll_active++;
 		if (fds[i].events & POLLOUT)
 			fds[i].revents |= POLLOUT;
 		/* a well-behaved server answers once the client has stopped writing */
@@ -206,6 +216,7 @@ __wrap_recv(int s, void * buf, size_t len, int flags)
 	size_t n;
 
 	(void)s; (void)flags;
+	hh_recv_hook();
 	if (srvpos == srvlen) {
 		if (end_reset) {
 			errno = ECONNRESET;
@@ -257,15 +268,70 @@ __wrap_send(int s, const void * buf, size_t len, int flags)
 	return ((ssize_t)n);
 }
 
+/* --- netbuf, white box (the registrations it holds) ----------------------------------------- */
+#include "netbuf_read.c"
+#include "netbuf_write.c"
+
 /* --- http.c, with its waits observed ------------------------------------------------------ */
 #define MAXWAITS (1 << 20)
 static size_t * waits = NULL;
 static size_t nwaits;
 static int cancel_pending;
+static long hh_live0;			/* live blocks when the request started */
+
+/* run-length encoded trace of own/total/regs at every wait */
+static char * rtrace = NULL;
+static size_t rtrace_len, rtrace_cap;
+static long rt_cur[3];
+static size_t rt_n;
+
+static void
+rt_flush(void)
+{
+	char tmp[96];
+	int n;
+
+	if (rt_n == 0)
+		return;
+	if (opt_early)
+		n = snprintf(tmp, sizeof(tmp), "%s%ld/*/*", rtrace_len ? "," : "", rt_cur[0]);
+	else
+		n = snprintf(tmp, sizeof(tmp), "%s%ld/%ld/%ld", rtrace_len ? "," : "", rt_cur[0], rt_cur[1], rt_cur[2]);
+	if (rt_n > 1)
+		n += snprintf(tmp + n, sizeof(tmp) - (size_t)n, "*%zu", rt_n);
+	if (rtrace_len + (size_t)n + 1 > rtrace_cap) {
+		rtrace_cap = (rtrace_len + (size_t)n + 1) * 2 + 256;
+		rtrace = __real_realloc(rtrace, rtrace_cap);
+	}
+	memcpy(rtrace + rtrace_len, tmp, (size_t)n + 1);
+	rtrace_len += (size_t)n;
+	rt_n = 0;
+}
+
+static void
+rt_add(long own, long total, long regs)
+{
+
+	if (opt_early)
+		total = regs = 0;
+	if (rt_n > 0 && rt_cur[0] == own && rt_cur[1] == total && rt_cur[2] == regs) {
+		rt_n++;
+		return;
+	}
+	rt_flush();
+	rt_cur[0] = own;
+	rt_cur[1] = total;
+	rt_cur[2] = regs;
+	rt_n = 1;
+}
+
+struct http_cookie;
+static void hh_snapshot(struct http_cookie *);
 
 static int
 hh_netbuf_read_wait(struct netbuf_read * R, size_t len, int (* cb)(void *, int), void * cookie)
 {
+	int rc;
 
 	if (nwaits < MAXWAITS)
 		waits[nwaits] = len;
@@ -274,12 +340,40 @@ hh_netbuf_read_wait(struct netbuf_read * R, size_t len, int (* cb)(void *, int),
 		cancel_pending = 1;
 		events_interrupt();
 	}
-	return (netbuf_read_wait(R, len, cb, cookie));
+	rc = netbuf_read_wait(R, len, cb, cookie);
+	hh_snapshot(cookie);
+	return (rc);
+}
+
+static void
+hh_recv_hook(void)
+{
+
+	nrecv++;
+	if (opt_cancel_recv > 0 && nrecv == opt_cancel_recv) {
+		cancel_pending = 1;
+		events_interrupt();
+	}
 }
 
 #define netbuf_read_wait hh_netbuf_read_wait
 #include "http.c"
 #undef netbuf_read_wait
+
+/* what the request holds right now: http.c's own blocks (by its pointers), all blocks, registrations */
+static void
+hh_snapshot(struct http_cookie * H)
+{
+	long own, regs;
+
+	own = 1 + (H->req_head != NULL) + (H->res_head != NULL) + (H->res.headers != NULL) + (H->res.body != NULL);
+	regs = (H->connect_cookie != NULL);
+	if (H->R != NULL && (H->R->read_cookie != NULL || H->R->immediate_cookie != NULL))
+		regs++;
+	if (H->W != NULL && H->W->write_cookie != NULL)
+		regs++;
+	rt_add(own, hh_live - hh_live0, regs);
+}
 
 /* --- the caller -------------------------------------------------------------------------- */
 static int ncb;
@@ -413,6 +507,7 @@ case_reset(void)
 	opt_sndmax = 0;
 	opt_sndfail = -1;
 	opt_cancel = -1;
+	opt_cancel_recv = -1;
 	opt_early = 0;
 	rq_reset();
 }
@@ -465,7 +560,7 @@ run_case(int generic)
 {
 	void * cookie;
 	long live0, live1;
-	int fds0, cancelled = 0, rounds;
+	int fds0, cancelled = 0, rounds, regs_end = 0;
 	size_t i;
 	int rangeok;
 	uint8_t * keep = srv;
@@ -479,11 +574,14 @@ run_case(int generic)
 	sentlen = 0;
 	nsockets = 0;
 	nwaits = 0;
+	nrecv = 0;
+	rtrace_len = 0;
+	rt_n = 0;
 	cancel_pending = 0;
 	stuck = 0;
 	ncb = 0;
 	got_resp = 0;
-	live0 = hh_live;
+	live0 = hh_live0 = hh_live;
 	fds0 = fds_open;
 
 	cookie = http_request(hh_sas, &rq, rq_limit, hh_callback, NULL);
@@ -505,9 +603,13 @@ run_case(int generic)
 			cancelled = 1;
 		}
 	}
-	/* nothing may happen afterwards */
-	for (rounds = 0; rounds < 3; rounds++)
+	/* nothing may happen afterwards, and nothing may still be registered with the event loop */
+	for (rounds = 0; rounds < 3; rounds++) {
+		poll_active = 0;
 		(void)events_run();
+		if (poll_active > regs_end)
+			regs_end = poll_active;
+	}
 	live1 = hh_live;
 
 	printf("cb=%d ", ncb);
@@ -555,13 +657,15 @@ run_case(int generic)
 		putchar('*');
 	else
 		hc_puthex(sent, sentlen);
-	printf(" live=%ld fds=%d", live1 - live0, fds_open - fds0);
+	printf(" live=%ld fds=%d regs=%d", live1 - live0, fds_open - fds0, regs_end);
 	if (!generic) {
 		printf(" | waits=");
 		if (nwaits == 0)
 			putchar('-');
 		for (i = 0; i < nwaits && i < MAXWAITS; i++)
 			printf("%s%zu", i ? "," : "", waits[i]);
+		rt_flush();
+		printf(" res=%s", rtrace_len ? rtrace : "-");
 	}
 	if (ncb >= 1 && got_resp) {
 		for (i = 0; i < r_nh; i++) {
@@ -693,7 +797,11 @@ main(void)
 			opt_conn = atoi(hc_tok[1]);
 			opt_sndmax = (size_t)strtoull(hc_tok[2], NULL, 10);
 			opt_sndfail = strcmp(hc_tok[3], "-") ? atoll(hc_tok[3]) : -1;
-			opt_cancel = strcmp(hc_tok[4], "-") ? atoll(hc_tok[4]) : -1;
+			opt_cancel = opt_cancel_recv = -1;
+			if (hc_tok[4][0] == 'r')
+				opt_cancel_recv = atoll(hc_tok[4] + 1);
+			else if (strcmp(hc_tok[4], "-"))
+				opt_cancel = atoll(hc_tok[4]);
 			opt_early = atoi(hc_tok[5]);
 			printf("ok");
 		} else if (hc_is("run", 0)) {
